@@ -28,7 +28,15 @@ D2 == IF ~Depth2 THEN {} ELSE
       \cup {[k |-> "ptr", e |-> t] : t \in D1in}
       \cup {[k |-> "struct", fields |-> <<a, b>>] : a \in D1in, b \in D0in}
 
-Cases == {[t |-> t, vc |-> vc] : t \in D0 \cup D1 \cup D2, vc \in {"empty", "one", "many", "long", "nil", "eight", "sixtyfour"}}
+(* arrays held twice in one value (by pointer, by value, as slice elements): each is its own array *)
+Arr(t) == [k |-> "array", e |-> t]
+DArr == {[k |-> "struct", fields |-> << [k |-> "ptr", e |-> Arr(t)], [k |-> "ptr", e |-> Arr(t)] >>] : t \in D0in}
+        \cup {[k |-> "struct", fields |-> << Arr(t), Arr(t) >>] : t \in D0in}
+        \cup {[k |-> "slice", e |-> Arr(t)] : t \in D0in}
+        \cup {[k |-> "slice", e |-> [k |-> "ptr", e |-> Arr(t)]] : t \in D0in}
+        \cup {[k |-> "map", key |-> Leaf("string"), e |-> Arr(t)] : t \in D0in}
+
+Cases == {[t |-> t, vc |-> vc] : t \in D0 \cup D1 \cup D2 \cup DArr, vc \in {"empty", "one", "many", "long", "nil", "eight", "sixtyfour"}}
 
 Init == cs = [t |-> Leaf("none"), vc |-> ""]
 Next == cs.vc = "" /\ cs' \in {c \in Cases : c.vc \in VClassesFor(c.t)}
